@@ -27,6 +27,7 @@ func main() {
 	tier := flag.String("tier", "quick", "quick|thorough")
 	repo := flag.String("repo", "/repo", "repository root")
 	verif := flag.String("verif", "/verif", "verif root (evidence, known findings)")
+	findingsPath := flag.String("findings", "/verif/known_findings.txt", "known findings file")
 	replay := flag.String("replay", "", "print a violation report")
 	dump := flag.Bool("dump", false, "print every obligation")
 	flag.Parse()
@@ -50,7 +51,7 @@ func main() {
 		props = strings.Split(*prop, ",")
 	}
 	seed, _ := strconv.Atoi(os.Getenv("VERIF_SEED"))
-	findings, ferr := loadFindings(filepath.Join(*verif, "known_findings.json"))
+	findings, ferr := loadFindings(*findingsPath)
 	start := time.Now()
 	abs, _ := filepath.Abs(*repo)
 	main, lerr := Load(LoadOpts{Repo: abs, Tags: defaultTags})
@@ -59,7 +60,7 @@ func main() {
 	for _, id := range props {
 		res := &Result{Prop: id, Tier: *tier, Seed: seed, Start: time.Now().Add(-loadT)}
 		if ferr != nil {
-			res.Fatal = append(res.Fatal, "known_findings.json unreadable: "+ferr.Error())
+			res.Fatal = append(res.Fatal, "known_findings.txt unreadable: "+ferr.Error())
 		}
 		fn, ok := registry[id]
 		if !ok {
